@@ -111,13 +111,47 @@ def run_case(case):
     return result(1, [oc], fails)
 
 
+_VALS = [v for v, _ in POOL_Q]
+SHARED_J = [_VALS.index(v) for v in (N(0), N(1), T('3'), T('abc'), B(True), BLANK, ERRV[0])]
+
+
+# ---- a unary operator inside another operator: what the unary operator returns is what the outer operator sees -------------
+def nested_unary_cases(tier):
+    for u in UNARY:
+        for op in S.BINOPS:
+            for i in range(len(POOL_Q)):
+                for j in SHARED_J:
+                    for side in (0, 1):
+                        yield ['nested', u, op, i, j, side]
+
+
+def run_nested(case):
+    from xl.evalcell import eval_formula
+    _, u, op, i, j, side = case
+    (a, ta), (b, tb) = POOL_Q[i], POOL_Q[j]
+    first = S.unary(u, a)
+    if S.REALROOT in first:
+        return result(0, ['skip:open-first-step'])
+    ua = {'u-': '(-B1)', 'u+': '(+B1)', '%': '(B1%)'}[u]
+    f = '=%s%s%s' % ((ua, op, 'C1') if side == 0 else ('C1', op, ua))
+    exp = set()
+    for m in first:
+        exp |= S.binary(op, m, b) if side == 0 else S.binary(op, b, m)
+    got = eval_formula(f, {'B1': a, 'C1': b})
+    fails = []
+    if not S.accepted(got, exp):
+        fails.append(Fail('shared-operand', got=got, exp=sorted(map(str, exp)), op=u + ' inside ' + op, a=ta, b=tb, ak=a[0], bk=b[0], mode='cell',
+                          gotk=got[0] if got[0] != 'BAD' else got[1], formula=f, av=a[1] if len(a) > 1 else None, bv=b[1] if len(b) > 1 else None))
+    return result(1, ['nested:%s' % (got[0] if got[0] != 'e' else got[1])], fails)
+
+
 # ---- one operand used twice: an operator must not alter what the next operator sees ------------------------
 def shared_cases(tier):
     n = len(POOL_Q)
     for op1 in S.ARITH + ['&', '=']:
         for op2 in ('&', '=', '<', '+'):
             for i in range(n):
-                for j in (0, 1, 11, 14, 18, 20, 21):        # 0, 1, "3", "abc", TRUE, blank, an error
+                for j in SHARED_J:        # 0, 1, "3", "abc", TRUE, blank, an error
                     yield ['shared', op1, op2, i, j]
 
 
@@ -146,10 +180,13 @@ _run_single = run_case
 
 
 def run_case(case):
+    if case[0] == 'nested':
+        return run_nested(case)
     return run_shared(case) if case[0] == 'shared' else _run_single(case)
 
 
 def run(ctx):
     ctx.explore(run_case, shared_cases(ctx.tier), chunksize=128, label='operand_used_twice')
+    ctx.explore(run_case, nested_unary_cases(ctx.tier), chunksize=128, label='unary_inside_binary')
     ctx.explore(run_case, cases(ctx.tier), chunksize=256)
     return {'pool_size': len(pool(ctx.tier)), 'operators': len(S.BINOPS) + len(UNARY)}
